@@ -521,14 +521,14 @@ package yang
 //@   ensures  nsCacheOK(ms)
 //@   ensures  result1 == nil ==> result != nil && result.Namespace.Name == ns && (exists k string :: has(ms.Modules, k) && ms.Modules[k] == result)
 //@   ensures  result1 != nil ==> result == nil
-//@   ensures[a-miss-finds-the-only-module-of-that-namespace] result1 == nil && !old(has(ms.byNS, ns)) ==> (forall k string :: has(ms.Modules, k) && ms.Modules[k].Namespace.Name == ns ==> ms.Modules[k] == result)
+//@   ensures[a-miss-finds-the-only-module-name-of-that-namespace] result1 == nil && !old(has(ms.byNS, ns)) ==> (forall k string :: has(ms.Modules, k) && ms.Modules[k].Namespace.Name == ns ==> ms.Modules[k].Name == result.Name)   -- (several revisions of one module share its namespace and its name)
 //@   ensures[no-such-namespace-is-an-error] !old(has(ms.byNS, ns)) && (forall k string :: has(ms.Modules, k) ==> ms.Modules[k].Namespace.Name != ns) ==> result1 != nil
 //@   modifies contents(ms.byNS)
 //@   safe
 //@   loop 1
 //@     modifies nothing
 //@     invariant found == nil ==> (forall k string :: visited(k) ==> ms.Modules[k].Namespace.Name != ns)
-//@     invariant found != nil ==> found.Namespace != nil && found.Namespace.Name == ns && (exists k string :: has(ms.Modules, k) && ms.Modules[k] == found) && (forall k string :: visited(k) && ms.Modules[k].Namespace.Name == ns ==> ms.Modules[k] == found)
+//@     invariant found != nil ==> found.Namespace != nil && found.Namespace.Name == ns && (exists k string :: has(ms.Modules, k) && ms.Modules[k] == found) && (forall k string :: visited(k) && ms.Modules[k].Namespace.Name == ns ==> ms.Modules[k].Name == found.Name)
 //@     invariant forall k string :: visited(k) ==> has(ms.Modules, k)
 //
 // The instantiating module of a node is the loaded module whose namespace is
